@@ -18,7 +18,8 @@ RULE = ('to_tough2: generated AUTOUGH2 models (gens/data.py: every section combi
         'every supported EOS name given explicitly, through MULTI, or through the simulator string only. '
         'Non-trivial = the model has a generator that must be converted or deleted, a MOP digit that triggers rescaling, '
         'or short/history output; for export: a boundary block or a source outside the first cell. distinct = case JSON.'
-        ' Also: MULTI with a blank / None EOS entry; history lists of kinds SHORT does not mention set before the conversion; half of the export cases export the model re-read from its data file.')
+        ' Also: MULTI with a blank / None EOS entry; history lists of kinds SHORT does not mention set before the conversion; half of the export cases export the model re-read from its data file.'
+        " Rounds 7-10: TOUGH2 models read from a file in another section order; another model converted before the first is looked at; generators in atmosphere blocks; the model's blocks in another order than the geometry's; one SHORT entry per generator of a GOFT block.")
 ASSUMPTIONS = ['an AUTOUGH2 model carries its history requests as SHORT output and a TOUGH2 model as FOFT/COFT/GOFT (models mixing both are not generated)',
                'the documented conductivity rescaling is judged only when exactly one of the two MOP conditions (MOP(10)=2; MOP(23)>0 with a '
                'pre-AUTOUGH2.2 or MULKOM simulator) holds; when both hold the case is counted, not judged',
